@@ -8,6 +8,7 @@
 import PyroModel.NsOps
 import PyroProofs.Lock
 import PyroModel.Gen.C15
+import PyroModel.LockRelease
 
 namespace Pyro.C15
 
@@ -30,6 +31,24 @@ theorem C15_gen_locked :
 theorem C15_source_every_access_locked (p : String × Pyro.LockSkeleton.Sk) (hp : p ∈ Pyro.Gen.C15.nsSkeletons)
     (t : Pyro.LockSkeleton.Trace) (ht : Pyro.LockSkeleton.Exec p.2 0 t) : ∀ e ∈ t, 0 < e :=
   Pyro.LockSkeleton.allLocked_sound ht (C15_gen_locked.1 p hp)
+
+/-- **C15_gen_released.**  The release skeleton of every public method of `NameServer` (extracted on every run: acquire /
+    release of `self.lock`, every point where an exception may leave, every `return`, the try / finally / except structure,
+    context-manager helpers of the class inlined at their `yield`) passes the check `releasedOnAllPaths`. -/
+theorem C15_gen_released :
+    (∀ p ∈ Pyro.Gen.C15.nsRelease, Pyro.LockRelease.releasedOnAllPaths p.2 = true) ∧
+    (∀ n ∈ ["count", "lookup", "register", "set_metadata", "remove", "list", "yplookup"],
+        n ∈ Pyro.Gen.C15.nsRelease.map (·.1)) := by decide
+
+/-- **C15_source_lock_released_on_all_paths.**  Hence, in the source as it is written now: every possible execution of every
+    public NameServer method — whichever branch it takes, however many loop rounds, whether it ends normally, by `return` or by
+    an exception raised at any point — leaves `self.lock` at the depth it found it: every acquire is released on every path.
+    With the re-entrant lock and `C15_source_every_access_locked` this is the deadlock-freedom half of the lock discipline:
+    no operation can leave the lock held and block every later client (the waiting threads of `Lock.step` always get their
+    turn once the holder's finitely many steps are done). -/
+theorem C15_source_lock_released_on_all_paths (p : String × Pyro.LockRelease.Rk) (hp : p ∈ Pyro.Gen.C15.nsRelease)
+    (d : Nat) (o : Pyro.LockRelease.Outcome) (d' : Nat) (h : Pyro.LockRelease.Exec p.2 d o d') : d' = d :=
+  Pyro.LockRelease.released_sound h (C15_gen_released.1 p hp)
 
 /-- **C15_linearizable.**  For every initial map, every multiset of concurrent calls and every
     schedule (any number of clients, any length, any preemption pattern): the completed calls took
